@@ -16,15 +16,15 @@ package region
 // for TLC (Trace_RegionClient).
 
 import (
-	"strings"
-	"sync/atomic"
 	"context"
 	"encoding/json"
 	"fmt"
 	"math/rand"
 	"os"
 	"strconv"
+	"strings"
 	"sync"
+	"sync/atomic"
 	"testing"
 	"testing/synctest"
 	"time"
@@ -305,6 +305,59 @@ func TestVerifC18(t *testing.T) {
 			o.flush(name, env)
 		})
 		rep.Distinct++
+	}
+
+	// ---- B2. the server answers ONE of several outstanding requests some time after the last one was sent, then goes silent:
+	// the timeout still runs from the last request SENT - an answer is no reason to wait longer for the others
+	for _, rt := range []time.Duration{time.Second, 30 * time.Second} {
+		for _, batched := range []bool{false, true} {
+			name := fmt.Sprintf("B2/one-answer-then-silence/rt=%v/batched=%v", rt, batched)
+			verifsim.Bubble(t, func(t *testing.T) {
+				opts := rcOpts{queueSize: 1, readTimeout: rt}
+				if batched {
+					opts = rcOpts{queueSize: 2, flushInterval: time.Millisecond, readTimeout: rt}
+				}
+				env := newRCEnv(opts)
+				defer env.finish()
+				c1 := env.newCall("b1", "get", false)
+				c2 := env.newCall("b2", "put", false)
+				c3 := env.newCall("b3", "get", false)
+				env.goQueue(c1)
+				synctest.Wait()
+				req1 := <-env.reqs
+				time.Sleep(rt / 10)
+				env.goQueue(c2)
+				synctest.Wait()
+				time.Sleep(rt / 10)
+				env.goQueue(c3) // the last request sent: the timeout runs from here
+				synctest.Wait()
+				start := time.Now()
+				time.Sleep(rt * 3 / 4)
+				env.respondOK(req1, 1, false) // b1 is answered three quarters of the timeout later ...
+				synctest.Wait()
+				time.Sleep(rt/4 - rt/1000) // ... and nothing else ever
+				synctest.Wait()
+				if env.isDone() {
+					rep.bad("timeout-too-early", "%s: the connection was failed %v after the last send, before the read timeout", name, time.Since(start))
+				}
+				time.Sleep(rt/1000 + 2*time.Nanosecond)
+				synctest.Wait()
+				env.quiesce()
+				for _, c := range []*rcCall{c2, c3} {
+					r, ok := c.first()
+					if !ok {
+						rep.bad("silent-server-not-detected", "%s: %s still waiting %v after the last request was sent (the server answered another request "+
+							"%v after it and has been silent since)", name, c.tag, time.Since(start), rt*3/4)
+					} else if _, isSrv := r.Error.(ServerError); !isSrv {
+						rep.bad("silent-server-wrong-error", "%s: %s completed with %v, not a connection-level error", name, c.tag, r.Error)
+					}
+				}
+				time.Sleep(2 * rt)
+				synctest.Wait()
+				o.flush(name, env)
+			})
+			rep.Distinct++
+		}
 	}
 
 	// ---- C. random interleavings
